@@ -44,8 +44,12 @@ var c11Files = map[string]string{
 	// first row: protein-only letters; second row: also U and O (no alphabet fits the whole alignment); a column
 	// conserved within a Clustal "strong" group without being identical (I/L)
 	"mixed.fa": ">a\nEIQLFP\n>b\nELQUOP\n>c\nEIQLFP\n",
-	"sat.fa":   ">s1\nAACA\n>s2\nAAAA\n>s3\nCCCA\n",
-	"sat2.fa":  ">s1\nAAAA\n>s2\nCCCA\n>s3\nAACA\n",
+	// more rows than workers, the number of rows (and of rows less one) not a multiple of the number of workers
+	"nt7.fa": ">r1\nATGGCTAAGTGA\n>r2\nATGGCTAAG-GA\n>r3\nATGACTAAGTNA\n>r4\nATGACCAAGTGA\n>r5\nTTGACCAAGTGC\n>r6\nATCACCTAGTGA\n>r7\nATGAGCAAGAGA\n",
+	// a name holding a multi-byte UTF-8 character
+	"utf8.fa": ">s\xc3\xa9q1\nACGT\n>seq2\nAC-T\n>\xce\xb1\xce\xb2\nTTGA\n",
+	"sat.fa":  ">s1\nAACA\n>s2\nAAAA\n>s3\nCCCA\n",
+	"sat2.fa": ">s1\nAAAA\n>s2\nCCCA\n>s3\nAACA\n",
 	// the ORF ATGCTTTGGTAA translates to MLW*: L is a protein-only letter, so the pairwise aligner reads it as a protein
 	"unal.fa": ">u1\nCCATGCTTTGGTAAGG\n>u2\nATGCTTTGGTAA\n>u3\nGATGCTATGGTAAC\n>u4\nCCTTACCAAAGCATGG\n",
 	// here the ORF ATGGCTTGGTAA translates to MAW*, which goalign reads as nucleotides: every alignment fails on '*'
@@ -66,11 +70,12 @@ var c11Files = map[string]string{
 }
 
 type c11Scenario struct {
-	Name    string
-	Args    []string // "@file" is replaced by the path of an input file
-	Seeded  bool     // the command draws random numbers: --seed is passed
-	Threads bool     // the command uses --threads
-	Stdin   string   // input file piped to stdin
+	Name      string
+	Args      []string // "@file" is replaced by the path of an input file
+	Seeded    bool     // the command draws random numbers: --seed is passed
+	Threads   bool     // the command uses --threads
+	ThreadSet []int    // the thread counts explored (default 1,2,3,16)
+	Stdin     string   // input file piped to stdin
 }
 
 func c11Scenarios() []c11Scenario {
@@ -138,6 +143,12 @@ func c11Scenarios() []c11Scenario {
 	add("dist-k2p-gamma-rmgaps", false, true, "compute", "distance", "-m", "k2p", "--alpha", "0.5", "-r", "-i", "@nt.fa")
 	add("dist-jc-saturated", false, true, "compute", "distance", "-m", "jc", "-i", "@sat.fa")
 	add("dist-jc-saturated2", false, true, "compute", "distance", "-m", "jc", "-i", "@sat2.fa")
+	add("dist-jc-7rows", false, true, "compute", "distance", "-m", "jc", "-i", "@nt7.fa")
+	sc[len(sc)-1].ThreadSet = []int{1, 3, 4, 5}
+	add("dist-pdist-7rows-range", false, true, "compute", "distance", "-m", "pdist", "--range1", "0:5", "--range2", "1:6", "-i", "@nt7.fa")
+	sc[len(sc)-1].ThreadSet = []int{1, 4, 5}
+	add("distboot-7rows", true, true, "build", "distboot", "-n", "2", "-m", "k2p", "-i", "@nt7.fa")
+	sc[len(sc)-1].ThreadSet = []int{1, 4}
 	add("dist-avg", false, true, "compute", "distance", "-m", "pdist", "-a", "-i", "@nt.fa")
 	add("dist-range", false, true, "compute", "distance", "-m", "jc", "--range1", "0:1", "--range2", "1:3", "-i", "@nt.fa")
 	add("dist-prot-lg", false, true, "compute", "distance", "-m", "lg", "-i", "@aa.fa")
@@ -782,8 +793,8 @@ func init() {
 	mc.Register(&mc.Prop{
 		ID:    "C11",
 		Level: "model_checking",
-		Rule: "subprocess-mode exploration of the goalign binary instrumented from the current tree: for each of the listed command scenarios (every documented command family, 1-3 flag sets each, on small nucleotide / protein / multi-Phylip / malformed-second-alignment inputs) x seeds {1,7} (randomised commands; shuffle seqs and sample sites also 0, -2, -1234567890123, build seqboot and mutate snvs also -2: every seed but the documented -1 replays) x --threads {1,2,3,16} (threaded commands): the default execution, then EVERY execution within 2 (quick) / 3 (thorough) deviations from it when run with one thread, 2 deviations with 2 threads and 1 deviation with 3 and 16 threads (both tiers) — a deviation is one scheduling decision other than the default (keep the running goroutine, else the lowest runnable id) at a channel/mutex/WaitGroup/spawn operation, one non-sorted iteration order at a ranged map, or one clock step at time.Now — must give exactly the bytes (stdout, exit status, every file written) of the default one-thread execution, end normally, and show no data race (vector clocks). " +
-			"Reformat chains: ALL format sequences of <=3 conversions among fasta/phylip/nexus/clustal that return to the starting format, on 7 inputs (one that fits no alphabet as a whole, one with '?', '*' and lower case, one whose names are NEXUS keywords but for their case), must return the starting bytes; build distboot == build seqboot + compute distance for 9 models (6 nucleotide, 3 protein on a gapped protein alignment) x {no flag, -r, --alpha 0.7, both} x 2 seeds, and x partial bootstrap -f 0.5, 0.25. Each scenario also runs on the uninstrumented binary and on the instrumented binary in pass-through mode (must agree). states/transitions = nodes/edges of the choice trees; distinct_nontrivial = distinct (scenario, seed, threads, choice list) executions compared.",
+		Rule: "subprocess-mode exploration of the goalign binary instrumented from the current tree: for each of the listed command scenarios (every documented command family, 1-3 flag sets each, on small nucleotide / protein / multi-Phylip / malformed-second-alignment inputs) x seeds {1,7} (randomised commands; shuffle seqs and sample sites also 0, -2, -1234567890123, build seqboot and mutate snvs also -2: every seed but the documented -1 replays) x --threads {1,2,3,16} (threaded commands; distances of a 7-row alignment with 3, 4 and 5 threads: more rows than workers, neither the rows nor the rows less one a multiple of the workers): the default execution, then EVERY execution within 2 (quick) / 3 (thorough) deviations from it when run with one thread, 2 deviations with 2 threads and 1 deviation with 3 and 16 threads (both tiers) — a deviation is one scheduling decision other than the default (keep the running goroutine, else the lowest runnable id) at a channel/mutex/WaitGroup/spawn operation, one non-sorted iteration order at a ranged map, or one clock step at time.Now — must give exactly the bytes (stdout, exit status, every file written) of the default one-thread execution, end normally, and show no data race (vector clocks). " +
+			"Reformat chains: ALL format sequences of <=3 conversions among fasta/phylip/nexus/clustal that return to the starting format, on 8 inputs (one whose names hold multi-byte UTF-8 characters, one that fits no alphabet as a whole, one with '?', '*' and lower case, one whose names are NEXUS keywords but for their case), must return the starting bytes; build distboot == build seqboot + compute distance for 9 models (6 nucleotide, 3 protein on a gapped protein alignment) x {no flag, -r, --alpha 0.7, both} x 2 seeds, and x partial bootstrap -f 0.5, 0.25. Each scenario also runs on the uninstrumented binary and on the instrumented binary in pass-through mode (must agree). states/transitions = nodes/edges of the choice trees; distinct_nontrivial = distinct (scenario, seed, threads, choice list) executions compared.",
 		Assumptions: []string{
 			"scheduling points only at synchronisation operations (channel, mutex, WaitGroup, go); data races are reported separately by vector clocks",
 			"stderr is not compared (log lines); dependencies (cobra, gzip, xz, tar) are not instrumented: they spawn no goroutines and range over no maps on these paths",
@@ -810,12 +821,15 @@ func init() {
 				threads := []int{1}
 				if sc.Threads {
 					threads = []int{1, 2, 3, 16}
+					if sc.ThreadSet != nil {
+						threads = sc.ThreadSet
+					}
 				}
 				for _, sd := range seeds {
 					for _, th := range threads {
 						r := c11Run{Scenario: sc.Name, Seed: sd, Threads: th, Bound: bound}
 						switch {
-						case th == 16 || th == 3:
+						case th >= 3:
 							r.Bound = 1 // 3 and 16 workers: one deviation (both tiers)
 						case th == 2:
 							r.Bound = 2 // two workers: two deviations (both tiers); three do not complete in the budget
@@ -838,7 +852,7 @@ func init() {
 				}
 			}
 			// reformat chains
-			for _, in := range []string{"nt.fa", "aa.fa", "tie.fa", "nt2.fa", "odd.fa", "kw.fa", "mixed.fa"} {
+			for _, in := range []string{"nt.fa", "aa.fa", "tie.fa", "nt2.fa", "odd.fa", "kw.fa", "mixed.fa", "utf8.fa"} {
 				for _, start := range c11Formats {
 					in, start := in, start
 					ts = append(ts, mc.Task{Name: fmt.Sprintf("chain#%s/%s", in, start), Run: func(c *mc.Ctx) {
